@@ -53,10 +53,27 @@ def build(case):
     if kind == 'pair':
         from .c13 import build_near_pairs
         return build_near_pairs(case.rng)
-    params = elementary(case.rng, kind, fam)
-    sur = M.Surf(1, kind, params)
-    deck = probe_deck([sur], [M.S(-1), M.S(1)],
+    rng = case.rng
+    params = elementary(rng, kind, fam)
+    sid = 1
+    extra = []
+    leaves_extra = []
+    if rng.random() < 0.5:
+        # free numbering and card order: the tested card has any number, the
+        # numbers just above it belong to other cards, and the surface block
+        # is not written in ascending order
+        sid = rng.choice([1, 2, 7, 40, 120])
+        for k in range(1, rng.randint(2, 3)):
+            extra.append(M.Surf(sid + k, rng.choice(['px', 'py', 'pz']),
+                                [rng.choice([-11.5, 11.5]) + 0.1 * k]))
+            leaves_extra.append(M.AND(M.S(-(sid + k)), M.S(sid)))
+    sur = M.Surf(sid, kind, params)
+    deck = probe_deck([sur] + extra, [M.S(-sid), M.S(sid)] + leaves_extra,
                       title=f'C02 {kind} {fam}')
+    if extra:
+        rng.shuffle(deck.surfs)
+        deck.tags.add('cards.unordered')
+    deck.tested = sur
     deck.tags.update({f'kind.{kind}', f'{kind}.{fam}'})
     if kind == 'sq' and params[6] > 0:
         deck.tags.add('sq.poscentre')
@@ -68,7 +85,7 @@ def run(case, ctx):
     out = Outcome()
     deck = build(case)
     out.tags |= deck.tags
-    sur = deck.surfs[0]
+    sur = getattr(deck, 'tested', deck.surfs[0])
     out.structure = ';'.join(f'{s.kind}:{[round(float(v), 5) for v in s.params]}'
                              for s in deck.surfs[:6])
     run_ = convert_deck(case, ctx, out, deck)
